@@ -299,6 +299,34 @@ def check(prog, rep):
     r4.add("before-setup", pos.get("get_molecule", 99) < pos.get("drop_water", -1) < pos.get("setup_molecule", -1),
            f"statement positions in main_driver: {pos}", f"pdb2pqr/main.py:{md.lineno} (main_driver)")
 
+    # water filter semantics (shared with C07.R9): a record is dropped iff it is a coordinate record of a water residue
+    from . import c07
+    c07.rule_water(prog, rep)
+    rep.rules[-1].rid = "R4b"
+    for ob in rep.rules[-1].obs:
+        ob.rule = "R4b"
+
+    # ------------------------------------------------------------------ R6
+    r6 = rep.rule("R6", "formatting flags do not move the numeric fields: column-based consumers read the same characters", floor=5)
+    from . import c08
+    from ..layout import offsets as _offsets
+    eng, finals = c08.writer_layouts(prog)
+    pos = {}
+    for f in finals:
+        for seg, a, b, c_, d in _offsets(f.result):
+            if seg.kind == "fld" and seg.src in ("self.x", "self.y", "self.z", "self.ffcharge", "self.radius"):
+                flag = f.refine.get("chainflag")
+                pos.setdefault(seg.src, set()).add(((a, b, c_, d), None if flag is None else flag.value))
+    _, cuts, _ = c08.insertion_points(prog)
+    for src, vals in sorted(pos.items()):
+        spans = {v[0] for v in vals}
+        fixed = len(spans) == 1 and all(a == b and c_ == d for (a, b, c_, d) in spans)
+        r6.add(f"position|{c08.FIELD_OF[src]}", fixed,
+               f"{c08.FIELD_OF[src]} occupies columns {sorted(spans)} on all {len(finals)} formatter paths (chain flag on/off, chain/iCode present or not): "
+               + ("one fixed position, so the fixed cuts of --whitespace and psize's column slice read whole fields" if fixed else
+                  "the position depends on the path - --whitespace then cuts numbers in two and the written coordinates differ between option sets"),
+               "pdb2pqr/structures.py (Atom.get_common_string_rep / get_pqr_string)")
+
     # ------------------------------------------------------------------ R5
     r5 = rep.rule("R5", "--neutraln/--neutralc reach only chain-terminal residues and shift the charge by exactly -1/+1", floor=20)
     for opt in ("neutraln", "neutralc"):
